@@ -306,7 +306,7 @@ def check(ctx):
     S = P.cls('System')
     fn = P.method(S, 'get_net_value_of_assets')[1]
     o.count()
-    r = [x for x in fn.body if isinstance(x, ast.Return)]
+    r = [x for x in ast.walk(fn) if isinstance(x, ast.Return)]       # every way out, not only the last statement
     oks = False
     if len(r) == 1 and isinstance(r[0].value, ast.Call) and ast.unparse(r[0].value.func) == 'sum' and isinstance(r[0].value.args[0], (ast.GeneratorExp, ast.ListComp)):
         lc = r[0].value.args[0]
